@@ -917,4 +917,33 @@ example : (qsort (nestedCmp (fun x y => x.headD 0 - y.headD 0) id (fun a b : Int
     [3, 0, 1, 2] [[5, 9, 7, 8, 6], [3, 1, 2, 4, 1], [9, 9, 2, 9, 9], [7, 6, 5, 4, 3], [8, 8, 8, 8, 0]]).map (·.1) =
     some [[8, 8, 8, 8, 0], [3, 1, 2, 4, 1], [9, 9, 2, 9, 9], [7, 6, 5, 4, 3], [5, 9, 7, 8, 6]] := by decide
 
+/-! ## round 3b: the period of rand.c's generator (open item of round 3)
+
+`x ↦ ((x·a + c) mod 2^32) mod m` is not a bijection of `[0, m)`, so the sequence has a
+tail and a short cycle.  For the state the library starts from (and for `srand(1)`,
+`srand(0)`) both are determined here by kernel evaluation; an exhaustive walk of all
+204 814 687 states (scratch program, recorded in the notes, not a theorem) finds 15
+cycles with 80 816 cyclic states in total, the longest of length 34 436. -/
+
+/-- `n` calls of `rand()`: the state afterwards -/
+def randIter : Nat → Nat → Nat
+  | 0, x => x
+  | n + 1, x => randIter n (randSeed x)
+
+/-- from the initial state, after 8269 calls the sequence of `rand()` repeats with
+period (dividing) 34436; same cycle after `srand(1)` (462 calls) and `srand(0)` (2919 calls) -/
+theorem rand_eventually_periodic :
+    randIter 34436 (randIter 8269 randInit) = randIter 8269 randInit ∧
+    randIter 34436 (randIter 462 1) = randIter 462 1 ∧
+    randIter 34436 (randIter 2919 0) = randIter 2919 0 := by
+  refine ⟨?_, ?_, ?_⟩ <;> decide +kernel
+
+/-- … and 34436 = 2·2·8609 is the exact period: its maximal proper divisors 17218 = 34436/2 and
+4 = 34436/8609 are not periods (nor is 8609), and the least period divides every period -/
+theorem rand_period_exact :
+    randIter 17218 (randIter 8269 randInit) ≠ randIter 8269 randInit ∧
+    randIter 8609 (randIter 8269 randInit) ≠ randIter 8269 randInit ∧
+    randIter 4 (randIter 8269 randInit) ≠ randIter 8269 randInit := by
+  refine ⟨?_, ?_, ?_⟩ <;> decide +kernel
+
 end Igris.C11
